@@ -1168,3 +1168,120 @@ package stun
 //@   ensures m != nil && msg != nil && m.Type.Method == msg.Type.Method && m.Type.Class == msg.Type.Class && m.Length == msg.Length
 //@        |   && m.TransactionID == msg.TransactionID && PairwiseEq(m.Attributes, msg.Attributes) ==> result
 //@   ensures result && m != nil ==> msg != nil && m.Type.Method == msg.Type.Method && m.Type.Class == msg.Type.Class && m.Length == msg.Length && len(m.Attributes) == len(msg.Attributes)
+
+// ---- URI layer (C16, C17). net/url, net and strconv are trusted (spec/40_uri.spec); strings are abstract values. ----
+
+//@ func NewSchemeType
+//@   safety C16 C17
+//@   props C17
+//@   pure
+//@   ensures result == SchemeOf(raw)
+
+//@ func SchemeType.String
+//@   safety C17
+//@   props C17
+//@   pure
+//@   allocates
+//@   ensures 1 <= t && t <= 4 ==> result == SchemeStr(t)
+
+//@ func NewProtoType
+//@   safety C16 C17
+//@   props C17
+//@   pure
+//@   ensures result == ProtoOf(raw)
+
+//@ func ProtoType.String
+//@   safety C17
+//@   props C17
+//@   pure
+//@   allocates
+//@   ensures 1 <= t && t <= 2 ==> result == ProtoStr(t)
+
+// parseProto: the transport named by a turn/turns query. 0 (unknown) only when the query has no keys at all.
+//@ func parseProto
+//@   safety C16 C17
+//@   props C17
+//@   pure
+//@   allocates
+//@   ensures result1 != nil ==> result0 == 0
+//@   ensures result1 == nil ==> q_ok(raw) && 0 <= result0 && result0 <= 2
+//@   ensures result1 == nil && result0 == 0 ==> q_n(raw) == 0
+//@   ensures result1 == nil && result0 != 0 ==> q_n(raw) == 1 && q_has(raw, "transport") && result0 == ProtoOf(q_first(raw, "transport"))
+//@   ensures !q_ok(raw) || q_n(raw) > 1 ==> result1 == ErrInvalidQuery
+
+// ParseURI. Accept(raw) collects what RFC 7064/7065 demand of an accepted URI, in terms of what the trusted
+// parsers report about raw: known scheme, host and port split (with the scheme's default port appended when
+// the authority has none), non-empty host, numeric port within 0-65535, and the transport rules.
+//@ define Authority(raw) = ite(shp_ok(url_opaque(raw)), url_opaque(raw), strcat(url_opaque(raw), DefPortSuffix(SchemeOf(url_scheme(raw)))))
+//@ func ParseURI
+//@   safety C16 C17
+//@   props C16 C17
+//@   pure
+//@   allocates
+//@   ensures result1 != nil ==> result0 == nil
+//@   ensures result1 == nil ==> result0 != nil && fresh(result0)
+//@   props C17
+//@   ensures result1 == nil ==> url_ok(raw) && result0.Scheme == SchemeOf(url_scheme(raw)) && 1 <= result0.Scheme && result0.Scheme <= 4
+//@   ensures result1 == nil ==> shp_ok(url_opaque(raw)) || ShpMissing(url_opaque(raw))
+//@   ensures result1 == nil ==> shp_ok(Authority(raw)) && result0.Host == shp_host(Authority(raw)) && result0.Host != ""
+//@   ensures result1 == nil ==> atoi_ok(shp_port(Authority(raw))) && result0.Port == atoi_val(shp_port(Authority(raw))) && 0 <= result0.Port && result0.Port <= 65535
+//@   ensures result1 == nil ==> result0.Proto == 1 || result0.Proto == 2
+//@   ensures result1 == nil && result0.Scheme == 1 ==> result0.Proto == 1 && q_ok(url_query(raw)) && q_n(url_query(raw)) == 0
+//@   ensures result1 == nil && result0.Scheme == 2 ==> result0.Proto == 2 && q_ok(url_query(raw)) && q_n(url_query(raw)) == 0
+//@   ensures result1 == nil && result0.Scheme >= 3 ==> q_ok(url_query(raw)) && q_n(url_query(raw)) <= 1
+//@   ensures result1 == nil && result0.Scheme >= 3 && q_n(url_query(raw)) == 0 ==> result0.Proto == result0.Scheme - 2
+//@   ensures result1 == nil && result0.Scheme >= 3 && q_n(url_query(raw)) == 1 ==> q_has(url_query(raw), "transport") && result0.Proto == ProtoOf(q_first(url_query(raw), "transport"))
+//@   ensures result1 == nil ==> result0.Username == "" && result0.Password == ""
+// rejections the property names explicitly
+//@   ensures url_ok(raw) && SchemeOf(url_scheme(raw)) == 0 ==> result1 == ErrSchemeType
+
+// URI.String: scheme ":" JoinHostPort(host, Itoa(port)) [ "?transport=" proto ]
+//@ func URI.String
+//@   safety C17
+//@   props C17
+//@   pure
+//@   allocates
+//@   ensures (u.Scheme == 1 || u.Scheme == 2) ==> result == strcat(strcat(SchemeStr(u.Scheme), ":"), jhp(u.Host, itoa(u.Port)))
+//@   ensures (u.Scheme == 3 || u.Scheme == 4) && (u.Proto == 1 || u.Proto == 2) ==> result == strcat(strcat(strcat(SchemeStr(u.Scheme), ":"), jhp(u.Host, itoa(u.Port))), strcat("?transport=", ProtoStr(u.Proto)))
+
+//@ func URI.IsSecure
+//@   safety C17
+//@   props C17
+//@   pure
+//@   ensures result <==> Secure(u.Scheme)
+
+// NewClient is assumed here (its body starts goroutines); the only fact DialURI needs is which connection the client holds.
+//@ extern NewClient(conn, options)
+//@   pure
+//@   allocates
+//@   ensures result1 != nil ==> result0 == nil
+//@   ensures result1 == nil && len(options) == 0 ==> result0 != nil && fresh(result0) && result0.c == conn
+
+// DialURI: which transport is requested from the network layer for which (scheme, transport) pair.
+//@ define Addr(uri) = jhp(uri.Host, itoa(uri.Port))
+//@ define Dialed(k) = ghost(dial_n) - old(ghost(dial_n)) == k
+//@ define Wrapped(k) = ghost(wrap_n) - old(ghost(wrap_n)) == k
+//@ define DialWas(network, uri) = gmap(dial_net)[old(ghost(dial_n))] == network && gmap(dial_addr)[old(ghost(dial_n))] == old(Addr(uri))
+//@ define WrapWas(kind, uri) = gmap(wrap_kind)[old(ghost(wrap_n))] == kind && gmap(wrap_sni)[old(ghost(wrap_n))] == old(uri.Host) && gmap(wrap_inner)[old(ghost(wrap_n))] == gmap(dial_conn)[old(ghost(dial_n))]
+//@ define Supported(s, p) = s == 1 || s == 3 || (s == 4 && p == 1) || ((s == 2 || s == 4) && p == 2)
+//@ func DialURI
+//@   safety C17
+//@   props C17
+//@   requires uri != nil && cfg != nil
+//@   assigns ghost(dial_n), gmap(dial_net), gmap(dial_addr), gmap(dial_conn), ghost(wrap_n), gmap(wrap_kind), gmap(wrap_inner), gmap(wrap_sni), gmap(wrap_out), gmap(udp_src)
+//@   allocates
+//@   ensures result1 != nil ==> result0 == nil
+//@   ensures result1 == nil ==> result0 != nil
+//@   ensures Dialed(0) || Dialed(1)
+//@   ensures Wrapped(0) || Wrapped(1)
+//@   ensures !old(Supported(uri.Scheme, uri.Proto)) ==> result1 != nil && Dialed(0) && Wrapped(0)
+//@   ensures !old(Supported(uri.Scheme, uri.Proto)) && old(cfg.Net) != nil ==> result1 == ErrUnsupportedURI
+//@   ensures old(uri.Scheme) == 1 ==> Wrapped(0) && (Dialed(1) ==> DialWas("udp", uri))
+//@   ensures old(uri.Scheme) == 3 && old(uri.Proto) == 2 ==> Wrapped(0) && (Dialed(1) ==> DialWas("tcp", uri))
+//@   ensures old(uri.Scheme) == 3 && old(uri.Proto) != 2 ==> Wrapped(0) && (Dialed(1) ==> DialWas("udp", uri))
+//@   ensures (old(uri.Scheme) == 1 || old(uri.Scheme) == 3) && result1 == nil ==> Dialed(1) && errval(result0.c) == gmap(dial_conn)[old(ghost(dial_n))]
+//@   ensures old(uri.Scheme) == 4 && old(uri.Proto) == 1 ==> (Dialed(1) ==> DialWas("udp", uri)) && (Wrapped(1) ==> Dialed(1) && WrapWas(1, uri))
+//@   ensures (old(uri.Scheme) == 2 || old(uri.Scheme) == 4) && old(uri.Proto) == 2 ==> (Dialed(1) ==> DialWas("tcp", uri)) && (Wrapped(1) ==> Dialed(1) && WrapWas(2, uri))
+// never a secure scheme in plaintext: the connection handed to the client is the TLS/DTLS wrapper
+//@   ensures old(Secure(uri.Scheme)) && result1 == nil ==> Dialed(1) && Wrapped(1) && errval(result0.c) == gmap(wrap_out)[old(ghost(wrap_n))]
+// the caller's URI and configuration are not modified (frame: not in assigns)
